@@ -323,10 +323,16 @@ pub struct Creds {
 pub fn gen_creds(rng: &mut Rng) -> Creds {
     let pw = if rng.chance(4, 5) { Some(rng.pick(&["demopass", "", "pässwörd", "a b ", "x"]).to_string()) } else { None };
     let kf = if pw.is_none() || rng.chance(1, 3) {
-        Some(match rng.below(4) {
+        Some(match rng.below(5) {
             0 => rng.bytes(32),
+            4 => format!("<?xml version=\"1.0\"?><Workbook><Cell><Data Type=\"String\">{}</Data></Cell><Version>2.0</Version></Workbook>", hex::encode(rng.bytes(16))).into_bytes(), // XML, but not a KeePass key file
             3 => rng.bytes_pick(&[65_536usize, 70_000, 131_073]),   // larger than any buffer a reader might cap at
             1 => rng.bytes(20),
+            1 if false => vec![],
+            _ if rng.chance(1, 2) => {
+                use base64::Engine;
+                format!("<KeyFile><Meta><Version>1.00</Version></Meta><Key><Data>{}</Data></Key></KeyFile>", base64::engine::general_purpose::STANDARD.encode(rng.bytes(32))).into_bytes()
+            }
             _ => format!("<KeyFile><Meta><Version>2.0</Version></Meta><Key><Data>{}</Data></Key></KeyFile>", hex::encode(rng.bytes(32))).into_bytes(),
         })
     } else {
@@ -428,7 +434,8 @@ pub fn run_cred(ctx: &mut Ctx) {
 fn edit_creds(rng: &mut Rng, c: &Creds) -> (Option<String>, Option<Vec<u8>>, &'static str) {
     let pw = c.pw.clone();
     let kf = c.kf.clone();
-    match rng.below(14) {
+    match rng.below(15) {
+        14 => (pw, kf.map(|k| { let t = String::from_utf8_lossy(&k).to_string(); if t.contains("=</Data>") { t.replacen("=</Data>", "</Data>", 1).into_bytes() } else if t.contains("</Data>") { t.replacen("</Data>", "=</Data>", 1).into_bytes() } else { let mut k = k; k.push(b'='); k } }).or(Some(vec![3u8; 32])), "keyfile-payload-padding-changed"),
         12 => (pw, kf.map(|mut k| { if let Some(l) = k.last_mut() { *l ^= 1 << rng.below(8); } else { k.push(1); } k }).or(Some(vec![1u8; 33])), "keyfile-last-byte-flip"),
         13 => (pw, kf.map(|mut k| { if k.len() > 1 { k.pop(); } else { k.push(7); } k }).or(Some(vec![2u8; 31])), "keyfile-one-byte-shorter-or-longer"),
         0 => (pw.map(|p| format!("{} ", p)), kf, "trailing-blank"),
@@ -600,8 +607,22 @@ pub fn run_fuzz4(ctx: &mut Ctx) {
                 2 => {
                     // authenticated but malformed interior: rebuild with a broken payload
                     let mut s2 = spec.clone();
-                    let how = rng.below(6);
+                    let how = rng.below(7);
                     let mut l2 = layout.clone();
+                    if how == 6 {
+                        // an IV / nonce of a length the outer cipher does not take, in a header that authenticates under the key
+                        s2.iv = rng.bytes_pick(&[0usize, 8, 12, 16, 24, 32]);
+                        if s2.iv.len() == s2.outer.iv_len() {
+                            s2.iv.push(0);
+                        }
+                        let header = kdbx::outer_header(&s2, &l2);
+                        let keys = kdbx::derive(&s2.kdf, &s2.master_seed, &comp).unwrap();
+                        let mut d = header.clone();
+                        d.extend_from_slice(&kdbx::sha256(&[&header]));
+                        d.extend_from_slice(&kdbx::hmac256(&kdbx::block_key(&keys.hmac_base, u64::MAX), &[&header]));
+                        d.extend_from_slice(&kdbx::hmac_blocks(&keys.hmac_base, &rng.bytes(48), &[]));
+                        (d, "authenticated-malformed:iv-length".to_string())
+                    } else {
                     match how {
                         0 => s2.inner_key = rng.bytes_pick(&[0usize, 1, 31, 33]),
                         1 => s2.attachments.push((0, vec![])),
@@ -620,6 +641,7 @@ pub fn run_fuzz4(ctx: &mut Ctx) {
                         });
                     }
                     (d, format!("authenticated-malformed:{}", how))
+                    }
                 }
                 3 => {
                     // inner header cut short / over-long inner field / no end marker, authenticated
